@@ -380,7 +380,13 @@ func run(tier core.Tier) *core.Report {
 					skipped++
 				} else {
 					executed++
-					outcomes[c.Family+":"+strings.Join(r.block, ",")] = true
+					var named []string
+					for _, n := range r.block {
+						if !strings.HasPrefix(n, "?") { // the award tx id is time dependent
+							named = append(named, n)
+						}
+					}
+					outcomes[c.Family+":"+strings.Join(named, ",")] = true
 					kinds[r.consKind] = true
 					if executed%5000 == 1 {
 						rep.Sample(map[string]interface{}{"case": c, "pool_order": r.pool, "block": r.block})
